@@ -117,8 +117,7 @@ Theorem segwit_address_roundtrip t h net :
   exists a, segwit_address (seg_script t h) net = Ok a /\
             decode_bech32 a = Ok (net_back net, seg_version t, h) /\
             address_to_script_pubkey hash256 a = Ok (seg_script t h) /\
-            (net <> 3 -> to_address_spk hash256 a = Ok (seg_script t h)) /\
-            (net = 3 -> to_address_spk hash256 a = Err).
+            to_address_spk hash256 a = Ok (seg_script t h).
 Proof.
   intros HT Hnet. pose proof HT as [HB HT'].
   assert (HV : 0 <= seg_version t <= 16) by (unfold seg_version; destruct (t =? 4); lia).
@@ -130,11 +129,6 @@ Proof.
   destruct (group_len h g HB EG) as [G20 G32].
   unfold segwit_address. rewrite (seg_raw_serialize t h HT). cbn [bind].
   eexists. split; [exact EE|]. split; [exact DEC|].
-  assert (Hnb : net <> 3 -> hrp <> hrp_bcrt).
-  { intros N3 ->. unfold prefix_of in EP. destruct (net =? 0); [discriminate|].
-    destruct ((net =? 1) || (net =? 2)); [discriminate|]. destruct (net =? 3) eqn:E3; [lia|discriminate]. }
-  assert (Hb : net = 3 -> hrp = hrp_bcrt).
-  { intros ->. cbn in EP. now injection EP as <-. }
   remember (map b32c (g ++ chk)) as tail eqn:ET.
   assert (LT : length tail = (length g + 6)%nat) by (subst tail; rewrite map_length, app_length, LC; lia).
   cbn [map app] in DEC |- *. rewrite <- ET.
@@ -144,46 +138,37 @@ Proof.
     rewrite (G20 HLh) in LT. cbn [Nat.add] in LT.
     change (b32c (seg_version 2)) with 113 in *. change (seg_version 2) with 0 in *.
     change (seg_script 2 h) with (p2wpkh_script h).
-    destruct HK as [-> | [-> | ->]]; (split; [|split]).
+    destruct HK as [-> | [-> | ->]]; split.
     + unfold address_to_script_pubkey, len_in. a2s_case LT DEC HLh.
-    + intros _. unfold to_address_spk. a2s_case LT DEC HLh.
-    + intros N3. specialize (Hb N3). discriminate.
+    + unfold to_address_spk. a2s_case LT DEC HLh.
     + unfold address_to_script_pubkey, len_in. a2s_case LT DEC HLh.
-    + intros _. unfold to_address_spk. a2s_case LT DEC HLh.
-    + intros N3. specialize (Hb N3). discriminate.
+    + unfold to_address_spk. a2s_case LT DEC HLh.
     + unfold address_to_script_pubkey, len_in. a2s_case LT DEC HLh.
-    + intros N3. exfalso. now apply (Hnb N3).
-    + intros _. reflexivity.
+    + unfold to_address_spk. a2s_case LT DEC HLh.
   - (* P2WSH *)
     rename H32 into HLh.
     rewrite (G32 HLh) in LT. cbn [Nat.add] in LT.
     change (b32c (seg_version 3)) with 113 in *. change (seg_version 3) with 0 in *.
     change (seg_script 3 h) with (p2wsh_script h).
-    destruct HK as [-> | [-> | ->]]; (split; [|split]).
+    destruct HK as [-> | [-> | ->]]; split.
     + unfold address_to_script_pubkey, len_in. a2s_case LT DEC HLh.
-    + intros _. unfold to_address_spk. a2s_case LT DEC HLh.
-    + intros N3. specialize (Hb N3). discriminate.
+    + unfold to_address_spk. a2s_case LT DEC HLh.
     + unfold address_to_script_pubkey, len_in. a2s_case LT DEC HLh.
-    + intros _. unfold to_address_spk. a2s_case LT DEC HLh.
-    + intros N3. specialize (Hb N3). discriminate.
+    + unfold to_address_spk. a2s_case LT DEC HLh.
     + unfold address_to_script_pubkey, len_in. a2s_case LT DEC HLh.
-    + intros N3. exfalso. now apply (Hnb N3).
-    + intros _. reflexivity.
+    + unfold to_address_spk. a2s_case LT DEC HLh.
   - (* P2TR *)
     rename H32 into HLh.
     rewrite (G32 HLh) in LT. cbn [Nat.add] in LT.
     change (b32c (seg_version 4)) with 112 in *. change (seg_version 4) with 1 in *.
     change (seg_script 4 h) with (p2tr_script h).
-    destruct HK as [-> | [-> | ->]]; (split; [|split]).
+    destruct HK as [-> | [-> | ->]]; split.
     + unfold address_to_script_pubkey, len_in. a2s_case LT DEC HLh.
-    + intros _. unfold to_address_spk. a2s_case LT DEC HLh.
-    + intros N3. specialize (Hb N3). discriminate.
+    + unfold to_address_spk. a2s_case LT DEC HLh.
     + unfold address_to_script_pubkey, len_in. a2s_case LT DEC HLh.
-    + intros _. unfold to_address_spk. a2s_case LT DEC HLh.
-    + intros N3. specialize (Hb N3). discriminate.
+    + unfold to_address_spk. a2s_case LT DEC HLh.
     + unfold address_to_script_pubkey, len_in. a2s_case LT DEC HLh.
-    + intros N3. exfalso. now apply (Hnb N3).
-    + intros _. reflexivity.
+    + unfold to_address_spk. a2s_case LT DEC HLh.
 Qed.
 
 (* base58 templates: the address payload is version byte :: hash, and decode_base58 gives the
